@@ -58,6 +58,24 @@ impl GraphSpec {
         GraphSpec { pkgs }
     }
 
+    /// `random`, then (for about half of the graphs) dev-dependency edges from workspace members back to members of lower
+    /// index: Cargo allows dependency cycles through dev-dependencies, so `depends_on` is not a partial order.
+    pub fn random_cyclic(rng: &mut Rng, n_ws: usize, n_ext: usize) -> Self {
+        let mut g = Self::random(rng, n_ws, n_ext);
+        if rng.chance(1, 2) {
+            let n = g.pkgs.len();
+            for j in 1..n {
+                for i in 0..j {
+                    if g.pkgs[j].workspace && g.pkgs[i].workspace && rng.chance(1, 4) { g.pkgs[j].deps.push((i, 1)); }
+                }
+            }
+        }
+        g
+    }
+
+    /// true if some dependency edge points from a higher to a lower index
+    pub fn has_back_edge(&self) -> bool { self.pkgs.iter().enumerate().any(|(i, p)| p.deps.iter().any(|(j, _)| *j < i)) }
+
     pub fn id(&self, i: usize) -> String {
         let p = &self.pkgs[i];
         if p.workspace {
